@@ -126,17 +126,27 @@ Theorem C07_avg_bounds : forall dt k (oc : option Z) fs nc nz ny nx (V : arr4 Z)
 Proof. exact avg_bounds. Qed.
 Print Assumptions C07_avg_bounds.
 
-(* (5) uint64: top of range wraps to 0 through the C11 converter, values above
-   2^53 lose precision; float32: double rounding *)
+(* (5) uint64 voxels at or above 2^49 lose precision in float64 (the top of the
+   range saturates since the C11 repair, but stays imprecise); float32: double
+   rounding *)
 Theorem C07_avg_uint64_refuted :
   exists V fs,
     avg_uint64_guard U64 V = false /\ check_factors_avg fs = true /\ Forall4 (in_range U64) V /\
     ~ Forall4 (small_val 3) V /\
-    avg_model U64 None fs (map4 NI V) = Ok [[[[NI 0%Z; NI (2 ^ 53)%Z]]]] /\
+    avg_model U64 None fs (map4 NI V) = Ok [[[[NI (2 ^ 64 - 1)%Z; NI (2 ^ 53)%Z]]]] /\
     avg_spec U64 None (fac fs 0) (fac fs 1) (fac fs 2) 1 1 1 4 (map4 inject_Z V)
-      = [[[[NI (2 ^ 64 - 1)%Z; NI (2 ^ 53 + 1)%Z]]]].
+      = [[[[NI (2 ^ 64 - 512)%Z; NI (2 ^ 53 + 1)%Z]]]].
 Proof. exact avg_uint64_refuted. Qed.
 Print Assumptions C07_avg_uint64_refuted.
+
+(* the former wrap-around witness now saturates, as the specification demands *)
+Theorem C07_avg_uint64_top_saturates :
+  avg_model U64 None [2; 1; 1]%Z [[[[NI (2 ^ 64 - 1)%Z; NI (2 ^ 64 - 1)%Z]]]]
+    = Ok [[[[NI (2 ^ 64 - 1)%Z]]]] /\
+  avg_spec U64 None 2 1 1 1 1 1 2 (map4 inject_Z [[[[2 ^ 64 - 1; 2 ^ 64 - 1]]]]%Z)
+    = [[[[NI (2 ^ 64 - 1)%Z]]]].
+Proof. exact avg_uint64_top_saturates. Qed.
+Print Assumptions C07_avg_uint64_top_saturates.
 
 Theorem C07_avg_float32_refuted :
   let a := [[[[NF (of_bits b32 1065353217); NF (of_bits b32 0)];
